@@ -70,7 +70,8 @@ class pmusic(ParametricSpectrum):
             # we need to flip the data
             self.psd = newpsd[::-1]
         else:
-            self.psd = centerdc_2_twosided(psd)
+            # eigen() returns the frequencies from -sampling/2: back to 0..sampling
+            self.psd = np.fft.ifftshift(psd)
 
         self.scale()
         return self
@@ -133,7 +134,8 @@ class pev(ParametricSpectrum):
             # we need to flip the data
             self.psd = newpsd[::-1]
         else:
-            self.psd = centerdc_2_twosided(psd)
+            # eigen() returns the frequencies from -sampling/2: back to 0..sampling
+            self.psd = np.fft.ifftshift(psd)
 
         self.scale()
         return self
